@@ -114,6 +114,18 @@ def _case(draw):
                                {'kind': 'junk', 'value': draw(st.sampled_from(JUNK))})
         tasks.append({'name': draw(st.sampled_from(TASK_NAMES)), 'status': status,
                       'results': results})
+    # some results come from the SAME Test object as an earlier one (a test evaluated again
+    # after its datasets changed: same name, same label dictionary, possibly another verdict)
+    last = {}
+    for task in tasks:
+        for spec in task['results'] or ():
+            if spec['kind'] in ('equal', 'student'):
+                if spec['kind'] in last and draw(st.integers(0, 3)) == 1:
+                    spec['twin'] = True
+                    spec['name'], spec['labels'] = last[spec['kind']]['name'], \
+                        dict(last[spec['kind']]['labels'])
+                else:
+                    last[spec['kind']] = spec
     # by_labels: 'd' never appears in a test -> documented exception
     how = draw(st.sampled_from(['distinct'] * 4 + ['any', 'absent']))
     if how == 'distinct':
@@ -136,18 +148,22 @@ def _dataset(values, edges, name):
                    bins=OrderedDict([('x', np.array(edges, dtype=float))]), name=name)
 
 
-def _make_result(spec):
+def _make_result(spec, last=None):
     if spec['kind'] == 'junk':
         return JUNK_VALUES[spec['value']]
     kind, okay, name = spec['kind'], spec['ok'], spec['name']
     labels = dict(spec['labels'])
     ref = _dataset([1.0, 2.0], [0.0, 1.0, 2.0], 'ref')
-    if kind == 'equal':
+    if spec.get('twin') and last is not None and kind in last:
+        test, other = last[kind]         # the same Test object, evaluated again on changed data
+        other.value[1] = 2.0 if okay else 7.0
+        res = test.evaluate()
+    elif kind in ('equal', 'student'):
         other = _dataset([1.0, 2.0 if okay else 7.0], [0.0, 1.0, 2.0], 'other')
-        res = TestEqual(ref, other, name=name, labels=labels).evaluate()
-    elif kind == 'student':
-        other = _dataset([1.0, 2.0 if okay else 7.0], [0.0, 1.0, 2.0], 'other')
-        res = TestStudent(ref, other, name=name, labels=labels).evaluate()
+        test = (TestEqual if kind == 'equal' else TestStudent)(ref, other, name=name, labels=labels)
+        res = test.evaluate()
+        if last is not None:
+            last[kind] = (test, other)
     elif kind == 'metadata':
         res = TestMetadata({'A': {'k': 'v'}, 'B': {'k': 'v' if okay else 'w'}},
                            name=name, labels=labels).evaluate()
@@ -165,12 +181,20 @@ def _make_result(spec):
 
 def _build(case, with_junk=True):
     task_results = []
+    last, made = {}, []
     for task in case['tasks']:
         section = {'status': TaskStatus[task['status']]}
         if task['results'] is not None:
-            section['result'] = [_make_result(spec) for spec in task['results']
-                                 if with_junk or spec['kind'] != 'junk']
+            section['result'] = []
+            for spec in task['results']:
+                if with_junk or spec['kind'] != 'junk':
+                    section['result'].append(_make_result(spec, last))
+                    if spec['kind'] != 'junk':
+                        made.append((spec, section['result'][-1]))
         task_results.append((task['name'], section))
+    for spec, res in made:      # an earlier result keeps its verdict when its test is evaluated again
+        if bool(res) != bool(spec['ok']):
+            raise HarnessError(f'result {spec} changed its verdict to {bool(res)}')
     return task_results
 
 
